@@ -231,6 +231,7 @@ class Run:
         self.probes: dict = {}
         self.obs: dict = {}
         self.trace: list = []
+        self.section_offsets: list = []
 
     def violation(self, oracle, site, msg, detail=None):
         self.records.append({"oracle": oracle, "site": site, "msg": msg, "detail": detail})
@@ -264,7 +265,13 @@ class Run:
                 if adv.get("nonce_high"):
                     n[12:16] = (0xFFFFFFF0).to_bytes(4, "little")  # counter word close to wrap-around
                 a["nonce"] = bytes(n)
-            if adv.get("timestamp") is not None:
+            if adv.get("timestamp") is not None and adv.get("tz_minutes") is not None:
+                from datetime import timedelta, timezone
+
+                # the same instant given as an aware datetime in another time zone
+                a["timestamp"] = datetime.fromtimestamp(adv["timestamp"], tz=timezone(timedelta(minutes=adv["tz_minutes"])))
+                self.expected_ts = (adv["timestamp"] - 946684800) * 1000000
+            elif adv.get("timestamp") is not None:
                 a["timestamp"] = datetime.fromtimestamp(adv["timestamp"])
                 self.expected_ts = (adv["timestamp"] - 946684800) * 1000000
             if adv.get("zero_padding"):
@@ -295,27 +302,41 @@ class Run:
         if self.signed:
             cb = S.CertBlockV1(build_number=p["build"])
             kdir = os.path.join(GOLDEN, "keys")
+            self.supplied_roots = []
             if key["kind"] == "self":
                 cert = S.Certificate.load(os.path.join(kdir, "rsa", f"selfsign_{key['bits']}_v3.der.crt"))
                 cb.set_root_key_hash(key.get("slot", 0), cert.public_key_hash())
+                self.supplied_roots.append((key.get("slot", 0), cert))
                 cb.add_certificate(cert)
                 pk = os.path.join(kdir, "rsa", f"selfsign_privatekey_rsa{key['bits']}.pem")
             elif key["kind"] == "chain3":
                 # root CA -> intermediate CA -> leaf; the image is signed with the leaf's key
                 chain = [S.Certificate.load(os.path.join(kdir, "chain", n)) for n in ("root_cert_0_ca_v3.der.crt", "chain_cert_0_v3.der.crt", "chain_cert_1_v3.der.crt")][: key.get("depth", 3)]
                 cb.set_root_key_hash(key.get("slot", 0), chain[0].public_key_hash())
+                self.supplied_roots.append((key.get("slot", 0), chain[0]))
                 for c in chain:
                     cb.add_certificate(c)
                 pk = os.path.join(kdir, "chain", "chain_cert_1_pkey_rsa4096.pem")
             else:
                 certs = [S.Certificate.load(os.path.join(kdir, f"root_k{i}_signed_cert0_noca.der.cert")) for i in range(4)]
-                for i in range(key["nroots"]):
+                slots = key.get("slots") or list(range(key["nroots"]))
+                order = list(slots)
+                if key.get("reverse_order"):
+                    order.reverse()  # the order of the calls must not matter
+                for i in order:
                     cb.set_root_key_hash(i, certs[i].public_key_hash())
+                    self.supplied_roots.append((i, certs[i]))
                 cb.add_certificate(certs[key["used"]])
                 pk = os.path.join(kdir, f"k{key['used']}_cert0_2048.pem")
             img.cert_block = cb
             img.signature_provider = S.PlainFileSP(pk)
-            self.rkth = cb.rkth
+            # the device is provisioned with the hash of the table *as supplied*: each root key hash in the slot it was given
+            table = bytearray(128)
+            for slot, cert in self.supplied_roots:
+                nums = cert.cert.public_key().public_numbers()
+                h = hashlib.sha256(nums.n.to_bytes((nums.n.bit_length() + 7) // 8, "big") + nums.e.to_bytes((nums.e.bit_length() + 7) // 8, "big")).digest()
+                table[32 * slot : 32 * slot + 32] = h
+            self.rkth = hashlib.sha256(bytes(table)).digest()
         return img
 
     def rom(self, kek=None):
@@ -370,6 +391,7 @@ class Run:
         except RomReject as exc:
             self.violation("rom-rejects-export", exc.stage, f"{label}: the ROM-loader model rejects the file: {exc}")
             return False
+        self.section_offsets = [sec["offset"] for sec in res["sections"]]
         self.compare_content(content, "rom", label, False)
         want = {
             "version": p["version"],
@@ -468,6 +490,14 @@ class Run:
                 self.fault("storage_truncation")
                 self.check_faulty(data[:n], f"op {k}: file truncated to {n}/{len(data)} bytes", must_reject=True)
                 self.log.add("trunc", n)
+            elif name == "trunc_section":
+                offs = [o_ for o_ in self.section_offsets[1:]]
+                if not offs:
+                    continue
+                n = offs[op["r"] % len(offs)]
+                self.fault("storage_truncation_at_section_boundary")
+                self.check_faulty(data[:n], f"op {k}: file cut at the boundary before section {self.section_offsets.index(n)} ({n}/{len(data)} bytes)", must_reject=True)
+                self.log.add("trunc_section", n)
             elif name == "wrong_kek":
                 kk = bytearray(self.kek)
                 kk[op["r"] % 32] ^= 1 << (op["bit"] & 7)
@@ -673,7 +703,12 @@ def gen_plan(family: str, i: int, rng: random.Random, tier: str) -> dict:
     signed = rng.random() < 0.6 if version == "2.0" else True
     key = rng.choice([{"kind": "self", "bits": 2048, "slot": rng.randrange(4)}, {"kind": "self", "bits": 4096, "slot": 0}, {"kind": "k4", "nroots": rng.randint(1, 4)}, {"kind": "k4", "nroots": rng.randint(2, 4)}, {"kind": "chain3", "bits": 4096, "depth": 3, "slot": rng.randrange(4)}])
     if key["kind"] == "k4":
-        key["used"] = rng.randrange(key["nroots"])
+        if rng.random() < 0.4:
+            key["slots"] = sorted(rng.sample(range(4), rng.randint(1, 3)))  # root keys in arbitrary slots, gaps stay empty
+            key["used"] = rng.choice(key["slots"])
+            key["reverse_order"] = rng.random() < 0.5
+        else:
+            key["used"] = rng.randrange(key["nroots"])
     nsec = rng.choice([1, 1, 1, 2, 2, 3, 4])
     uids = rng.sample([0, 1, 2, 3, 0x10, 0xFFFF, 0x12345678, 0xFFFFFFFF, 7, 100], nsec)
     sections = []
@@ -692,6 +727,8 @@ def gen_plan(family: str, i: int, rng: random.Random, tier: str) -> dict:
             adv["nonce_high"] = True
         if rng.random() < 0.5:
             adv["timestamp"] = rng.choice([946684800, 946684801, 1_600_000_000, 1_750_000_000, rng.randrange(946684800, 4_000_000_000)])
+        if adv.get("timestamp") is not None and rng.random() < 0.35:
+            adv["tz_minutes"] = rng.choice([0, 330, -480, 60, 845])
         if rng.random() < 0.3:
             adv["zero_padding"] = True
     plan = {
@@ -705,8 +742,10 @@ def gen_plan(family: str, i: int, rng: random.Random, tier: str) -> dict:
         r = rng.random()
         if r < 0.5:
             ops.append({"op": "flip", "region": rng.choice(["any", "any", "header", "hmac", "keyblob", "cert", "sectionhdr", "tail"]), "r": rng.randrange(1 << 30), "bit": rng.randrange(8)})
-        elif r < 0.62:
+        elif r < 0.58:
             ops.append({"op": "trunc", "r": rng.randrange(1 << 30), "align": rng.random() < 0.5})
+        elif r < 0.64:
+            ops.append({"op": "trunc_section", "r": rng.randrange(1 << 30)})
         elif r < 0.7:
             ops.append({"op": "wrong_kek", "r": rng.randrange(1 << 30), "bit": rng.randrange(8)})
         elif r < 0.76:
